@@ -354,6 +354,7 @@ impl Exec {
 //@rreplace ? /let \(maybe_out, maybe_err\) = captured\?;/ => /let (maybe_out, maybe_err) = match captured { Ok(x_) => x_, Err(e_) => { drop_glue_popen(p, Tracked(w)); return Err(PopenError::from(e_)); } };/
 //@forbid /comm\.read\(Tracked\(w\)\)\?/
 //@forbid /captured\?/
+//@forbid /\breturn\s+(?!Err\((e_|PopenError::from\(e_\))\);)/
     requires no_inheritable(old(w).s), no_parked(old(w).s), old(w).s.stages.len() < 0xffff_ffff, self.stdin_data.is_some() == (self.config.stdin is Pipe),
     ensures
         // capture returns only after the child has been waited for
@@ -618,6 +619,7 @@ impl Pipeline {
 //@rreplace ? /let \(out, err\) = captured\?;/ => /let (out, err) = match captured { Ok(x_) => x_, Err(e_) => { let ghost b_ = old(w).s.stages.len() as int; let ghost v1_ = v@; drop_glue_vec_popen(v, Tracked(w)); proof { assert forall|j: int| b_ <= j < w.s.stages.len() && !(#[trigger] w.s.stages[j]).detached implies w.s.stages[j].reaped by { assert(reaped_or_detached(v1_[j - b_], w.s)); } } return Err(PopenError::from(e_)); } };/
 //@forbid /comm\.read\(Tracked\(w\)\)\?/
 //@forbid /captured\?/
+//@forbid /\breturn\s+(?!Err\((e_|PopenError::from\(e_\))\);)/
     requires
         no_inheritable(old(w).s), //[C08]
         no_parked(old(w).s), //[C12,C14]
